@@ -4,6 +4,7 @@
 
    input, one script per line:
      cfg <filter 0|1> <stamp_always 0|1> <version> <ack 0|1> <default-mode|-> <k> (<typ> <mode>)*k ; step ; step ...
+     (optional prefix: cfgx <0|1> <the rest as after cfg> — 1: Connect watches the loops' errors while negotiating, Client/ModelX.v)
    modes: none | all | panic | part:<k>
    steps:
      connect nofirst | connect first <frame>          frame = <ver> <typ> <id> <len> <tag> <info>
@@ -75,8 +76,9 @@ let parse_step toks =
   | ["newclient"] -> SNewClient
   | _ -> failwith ("bad step: " ^ String.concat " " toks)
 
-let parse_cfg toks =
+let rec parse_cfg toks =
   match toks with
+  | "cfgx" :: w :: r -> { (parse_cfg ("cfg" :: r)) with sc_watch = (w = "1") }
   | "cfg" :: flt :: sta :: ver :: ack :: def :: k :: r ->
     let k = int_of_string k in
     let rec hs i r acc = if i = 0 then List.rev acc else
@@ -85,7 +87,8 @@ let parse_cfg toks =
     { sc_cfg = { filter_unsolicited = (flt = "1"); stamp_always = (sta = "1"); cfg_version = ni ver; ack_handler = (ack = "1");
                  user_handlers = List.map fst modes; default_handler = (def <> "-") };
       sc_modes = modes;
-      sc_default = (if def = "-" then HBNone else parse_mode def) }
+      sc_default = (if def = "-" then HBNone else parse_mode def);
+      sc_watch = false }
   | _ -> failwith "bad cfg"
 
 let b2s b = if b then "1" else "0"
